@@ -201,7 +201,7 @@ pub struct RecLayout {
 }
 impl std::fmt::Debug for RecLayout {
     fn fmt(&self, f: &mut std::fmt::Formatter<'_>) -> std::fmt::Result {
-        write!(f, "Rec#{}", self.instance)
+        { let _ = self.instance; f.write_str("Rec") }
     }
 }
 pub const TOKEN_BASE: u32 = 0xF0000;
